@@ -581,6 +581,80 @@ def invalid_option_text(case):
     return any(str(v).lower() not in every for v in (rules or {}).values() if v)
 
 
+def rule_scope_failure(case, got):
+    """A per-path rule governs only the node its path names.  Checked directly on the merged
+    document: a right-hand Scalar under a key both Hashes have, which NO rule names and which the
+    default policy lets override, must hold the right-hand value.  If it kept the left-hand value
+    although a [rules] entry `left` names a SIBLING under the same parent, the rule leaked (CPython
+    shares small ints, one-character strings, booleans and None: `{a: 1, b: 1}` holds ONE object
+    twice, so a rule table matching by node identity alone - without the key - governs both)."""
+    rules = case[3] or {}
+    if not rules or _aoh_default(case) in ("left", "right"):
+        return None                 # the second case is F-C05-1's territory: left to the reference policy
+    pol = Policy(case)
+    l = plain(load(case[0]))
+    r = plain(load(case[1]))
+
+    def sibling_rules(parent, own):
+        pre = parent.rstrip("/") + "/"
+        return [p for p, v in rules.items()
+                if v and p != own and p.startswith(pre) and "/" not in p[len(pre):] and "[" not in p[len(pre):]]
+
+    def walk(path, lv, rv, gv):
+        if not (lv[0] == rv[0] == gv[0]):
+            return None
+        if rv[0] == "m":
+            for k, rval in rv[1]:
+                p = path.rstrip("/") + "/" + seg(k)
+                lval, gval = p_get(lv, k), p_get(gv, k)
+                if lval is None or gval is None:
+                    continue
+                if rval[0] == "l":
+                    if pol.from_rule(p) or p_eq(lval, rval):
+                        continue
+                    if not p_eq(gval, rval) and p_eq(gval, lval):
+                        sib = [q for q in sibling_rules(path, p) if rules[q].lower() == "left"]
+                        if sib:
+                            return ("the rule %s = left also governed its sibling %s (which no rule names): "
+                                    "it kept %r instead of taking %r" % (sib[0], p, lval[1], rval[1]))
+                elif rval[0] == "m":
+                    if pol.mode("hashes", p, HASHES, "deep") == "deep":
+                        m = walk(p, lval, rval, gval)
+                        if m:
+                            return m
+                elif rval[0] == "s" and rval[1] and rval[1][0][0] == "m":
+                    m = walk(p, lval, rval, gval)
+                    if m:
+                        return m
+            return None
+        if rv[0] == "s" and rv[1] and rv[1][0][0] == "m":
+            if pol.mode("aoh", path, AOH, "all") != "deep":
+                return None
+            idk = pol.keys.get(path + "[0]") or pol.keys.get(path)
+            idk = ("l", idk) if idk else (rv[1][0][1][0][0] if rv[1][0][1] else ("l", ""))
+
+            def rec_of(seq, idv):
+                for x in seq[1]:
+                    if x[0] == "m" and p_get(x, idk) is not None and p_eq(typed(p_get(x, idk)), typed(idv)):
+                        return x
+                return None
+            for n, e in enumerate(rv[1]):
+                if e[0] != "m" or p_get(e, idk) is None:
+                    continue
+                lrec, grec = rec_of(lv, p_get(e, idk)), rec_of(gv, p_get(e, idk))
+                if lrec is not None and grec is not None:
+                    m = walk("%s[%d]" % (path, n), lrec, e, grec)
+                    if m:
+                        return m
+        return None
+    try:
+        if r[0] == "m" and pol.mode("hashes", "/", HASHES, "deep") != "deep":
+            return None             # the root Hash is kept / replaced as a whole
+        return walk("/", l, r, got)
+    except Unjudged:
+        return None
+
+
 def judge(case, obs):
     line = obs[0]
     if line == "(raise (crash NameError))" and invalid_option_text(case):
@@ -607,6 +681,9 @@ def judge(case, obs):
     if not line.startswith("(ok"):
         return "merge ended in %s" % line
     got = plain_of_line(line)
+    leak = rule_scope_failure(case, got)
+    if leak:
+        return leak
     if not same_layout(exp, got):
         return "merged document differs from the policy-defined result: expected %r got %r" % (exp, got)
     l = plain(load(case[0]))
@@ -668,9 +745,12 @@ def aoh_default_governs_non_aoh(case, obs):
     Array-of-Hashes (a Scalar or a plain Array) and no rule names it."""
     if _aoh_default(case) not in ("left", "right"):
         return False
-    E = _ENV
-    l = load(case[0])
-    r = load(case[1])
+    return aoh_governs_docs(case, load(case[0]), load(case[1]))
+
+
+def aoh_governs_docs(case, l, r):
+    """the shape test of F-C05-1 on two loaded documents (C10 also applies it to the pair
+    the anchor policy hands to the merge proper: replacing an anchored KEY can make a key common)"""
     rules = case[3] or {}
 
     def walk(lv, rv, path):
@@ -814,6 +894,77 @@ def rand_rules(rng, rhs_text):
     return rules, keys
 
 
+SHARED = ["1", "2", "0", "x", "y", "~", "true", "false"]     # CPython / ruamel hand out ONE object for each
+
+
+def shared_sibling_case(rng):
+    """A right-hand Hash holding the SAME interned Scalar under two (or three) keys, every one of
+    them changing the left-hand value, with a [rules] entry naming exactly one of them and a default
+    policy that decides otherwise; the Hash is the merge target itself, sits under a key, or is a
+    record of an Array-of-Hashes merged DEEP (with and without a [keys] entry); besides Scalars the
+    equal siblings are also equal small Arrays / Hashes / Arrays-of-Hashes (distinct objects)."""
+    s = rng.choice(SHARED)
+    others = [x for x in SHARED + ["5", "6", "'7'"] if x != s]
+    ks = rng.sample(["a", "b", "c"], rng.choice([2, 2, 3]))
+    shape = rng.choice(["l", "l", "l", "l", "s", "m", "aoh"])
+    wrap = {"l": "%s", "s": "[%s]", "m": "{k: %s}", "aoh": "[{id: 4, v: %s}]"}[shape]
+    rvals = {k: wrap % s for k in ks}
+    lvals = {k: wrap % rng.choice(others) for k in ks}
+    if rng.random() < 0.3:
+        extra = rng.choice(["d", "id"])
+        rvals[extra] = rng.choice(others)          # a further key with another object
+        lvals[extra] = rng.choice(others)
+    if rng.random() < 0.2:
+        del lvals[ks[-1]]                          # the sibling is new on the left: nothing to observe there
+    named = ks[0] if rng.random() < 0.7 else rng.choice(ks)
+    ctx = rng.choice(["root", "root", "key", "key2", "aoh", "aohkey", "aohroot"])
+    opts = {}
+    keys = None
+
+    def hash_text(vals, idv=None):
+        items = (["id: %s" % idv] if idv is not None else []) + ["%s: %s" % kv for kv in vals.items()]
+        return "{" + ", ".join(items) + "}"
+    if ctx == "root":
+        lt, rt, base = hash_text(lvals), hash_text(rvals), ""
+    elif ctx == "key":
+        lt, rt, base = "{p: %s, q: 1}" % hash_text(lvals), "{p: %s}" % hash_text(rvals), "/p"
+    elif ctx == "key2":
+        lt, rt, base = "{p: {q: %s}}" % hash_text(lvals), "{p: {q: %s}, a: 1}" % hash_text(rvals), "/p/q"
+    else:
+        idv = rng.choice(["9", "8", "k"])
+        lvals.pop("id", None)
+        rvals.pop("id", None)
+        lrec, rrec = hash_text(lvals, idv), hash_text(rvals, idv)
+        more = rng.choice(["", "", ", {id: 3, a: 1}"])
+        opts["aoh"] = "deep"
+        if ctx == "aohroot":
+            lt, rt, base = "[%s]" % lrec, "[%s%s]" % (rrec, more), "/[0]"
+        else:
+            lt, rt, base = "{l: [%s]}" % lrec, "{l: [%s%s]}" % (rrec, more), "/l[0]"
+            if ctx == "aohkey":
+                keys = {rng.choice(["/l", "/l[0]"]): "id"}
+    path = base + "/" + named
+    text = "left"
+    if shape == "l":
+        if rng.random() < 0.12:
+            opts["aoh"] = "left"                   # F-C05-1's territory: the rule says right, the default freezes
+            text = "right"
+    elif shape == "s":
+        opts["arrays"] = rng.choice(["all", "unique", "right"])
+        text = rng.choice(["left", "left", "right", "all"])
+    elif shape == "m":
+        opts["hashes"] = rng.choice(["deep", "right"])
+        text = rng.choice(["left", "left", "right"])
+    else:
+        if "aoh" not in opts:
+            opts["aoh"] = rng.choice(["all", "unique", "right", "deep"])
+        text = rng.choice(["left", "left", "right", "all"])
+    rules = {path: text}
+    if rng.random() < 0.15:
+        rules[base + "/" + rng.choice(ks)] = rng.choice(["left", "right"])
+    return (lt, rt, opts, rules, keys, None)
+
+
 def chunks(tier, seed):
     rng = random.Random(seed)
     size = 400
@@ -851,6 +1002,11 @@ def chunks(tier, seed):
         l = rng.choice(four if rng.random() < 0.7 else small)
         r = rng.choice(four if rng.random() < 0.7 else small)
         c = emit((l, r, rng.choice(ALL_COMBOS), None, None, None))
+        if c:
+            yield c
+    nshared = 3000 if tier == "quick" else 40000
+    for _ in range(nshared):
+        c = emit(shared_sibling_case(rng))
         if c:
             yield c
     nrand = 12000 if tier == "quick" else 150000
@@ -898,6 +1054,12 @@ def corpus_chunks():
         ("5", "{a: 1}", {"hashes": "left"}, None, None, None),
         ("{a: 1}", "{a: 2}", {"aoh": "left"}, None, None, None),           # known finding F-C05-1
         ("{a: [1]}", "{a: [2]}", {"aoh": "right", "arrays": "left"}, None, None, None),
+        # a rule names /a only; /b holds the very same interned object under the same parent
+        ("{a: 5, b: 6}", "{a: 1, b: 1}", {}, {"/a": "left"}, None, None),
+        ("{p: {a: 5, b: 6}}", "{p: {a: x, b: x}}", {}, {"/p/a": "left"}, None, None),
+        ("{l: [{id: 9, a: 5, b: 6}]}", "{l: [{id: 9, a: ~, b: ~}]}", {"aoh": "deep"}, {"/l[0]/a": "left"},
+         {"/l": "id"}, None),
+        ("[{id: 9, a: 5, b: 6}]", "[{id: 9, a: true, b: true}]", {"aoh": "deep"}, {"/[0]/b": "left"}, None, None),
     ]
 
 
